@@ -185,6 +185,15 @@ CHECKS['C17'] = (
     'normalisation, readers) are validated by the sequences, not modelled.',
     BASE_NOTE + 'file system as a map; today\'s date passed in.', '6/C17')
 
+CHECKS['C15'] = (
+    'Lean 4 theorems about the bundle listing model over the writer map regenerated from the source (members = README, per expressible (basis, version) one '
+    'basis and one reference file with the API texts, notes under the basis\' own name, family notes; gated-out basis sets absent) + differential execution '
+    'against create_bundle for zip and tar.bz2',
+    'Proof (on the model): gated_out_absent, entryMembers_spec, notes_named_after_own_basis (the property the repaired defect F4 violated). Tie: model member '
+    'list (names, order, content hashes) = members read from the real archive; every member byte for byte = get_basis / get_references / notes of the same '
+    'sampled directory; no duplicates, nothing else. Partial: archive encoding (zipfile/tarfile/bz2) is glue; name injectivity is not proved.',
+    BASE_NOTE + 'zipfile, tarfile.', '6/C15')
+
 NOT_YET = {}
 
 
